@@ -9,5 +9,6 @@ TECHNIQUE = {
     'C20': 'static ordering/FIFO rules: path enumeration of sender, receiver-queue and header-construction functions',
     'C07': 'typestate analysis: finite transition system extracted from ClientAuthenticator (exact constant propagation over the mechanism list), explored exhaustively; attribute-discipline lint',
     'C03': 'static writer/reader agreement: header tables vs specification, header typing by path enumeration of _marshal, flag and padding expressions evaluated by constant folding over their finite domains, constructor validation on all paths',
+    'C04': 'static non-interference check: path enumeration of dataReceived in both modes (chunk-use discipline, dominance of header reads, layout offsets from the specification, length expression evaluated by constant folding, drain/recursion shape, mode-switch typestate)',
     'C02': 'static conformance check of the extracted codec model against specification tables; padding function interpreted in the congruence domain mod 8',
 }
